@@ -82,6 +82,15 @@ def writeStr2 (w : W) (s : Bytes) : Out EErr (Nat × W) :=
   (writeU16 w (s.length % 65536)).bind fun w1 =>
   (w1.writeBinary s).bind fun r => .ok (r.1 + 2, r.2)
 
+/-- WriteUint32(val, out); `v` is the uint32 value (callers truncate) -/
+def writeU32 (w : W) (v : Nat) : Out EErr W :=
+  (w.malloc 4).bind fun r => r.2.put r.1 0 (be32 v)
+
+/-- WriteString(val, out): `uint32(len(val))` then the bytes; returns n + 4 with n from WriteBinary -/
+def writeStr4 (w : W) (s : Bytes) : Out EErr (Nat × W) :=
+  (writeU32 w (s.length % 4294967296)).bind fun w1 =>
+  (w1.writeBinary s).bind fun r => .ok (r.1 + 4, r.2)
+
 /-! ## encode.go -/
 
 structure EncParam where
@@ -298,6 +307,21 @@ def readKVInfo (b : Bytes) : Nat → Nat → Maps → DOut Maps
       else if id = Facts.ttInfoACLToken then
         (readACLToken b (idx + 1) (mk m.str)).bind fun r => readKVInfo b fuel r.1 { m with str := some r.2 }
       else .err .infoId
+
+/-- Bytes2Uint32NoCheck / Bytes2Uint16NoCheck: binary.BigEndian.UintNN, which index-panics on a short slice -/
+def bytes2Uint32NoCheck (b : Bytes) : DOut Nat := beU32 b
+def bytes2Uint16NoCheck (b : Bytes) : DOut Nat := beU16 b
+
+/-- IsStreaming(bytes): the length check, then `Uint16(bytes[4:]) == uint16(TTHeaderMagic>>16) &&
+    Uint16(bytes[6:]) & uint16(HeaderFlagsStreaming) != 0` (the right operand only if the left holds) -/
+def isStreaming (b : Bytes) : DOut Bool :=
+  if b.length < 8 then .ok false
+  else
+    (sliceFrom b Facts.ttSize32).bind fun s1 => (beU16 s1).bind fun m =>
+    if m ≠ (Facts.ttMagic / 65536) % 65536 then .ok false
+    else
+      (sliceFrom b (Facts.ttSize32 + Facts.ttSize16)).bind fun s2 => (beU16 s2).bind fun f =>
+      .ok (decide (f &&& Facts.ttFlagsStreaming ≠ 0))
 
 /-- checkProtocolID: the `case` constants come from the source (Tie A) -/
 def checkProtocolID (p : Nat) : Bool := Facts.ttProtocolAllow.contains (p : Int)
